@@ -65,6 +65,7 @@ type connRec struct {
 
 	insideOpen  int32
 	insideMsg   int32
+	insideFrame int32
 	insideClose int32
 	openEntry   int64
 	openExit    int64
@@ -176,6 +177,29 @@ func (e *env) onOpen(c *websocket.Conn) {
 	}
 	atomic.AddInt32(&rec.insideOpen, -1)
 	atomic.StoreInt64(&rec.openExit, e.log.Add("open.exit", rec.key, 0, ""))
+}
+
+// onDataFrame (registered in half of the cases, next to the message callback): the
+// per-frame callback is a message-level callback too - it must not start before the
+// open callback has returned, frames of one connection are handed over one at a
+// time, and none after the close callback.
+func (e *env) onDataFrame(c *websocket.Conn, mt websocket.MessageType, fin bool, data []byte) {
+	bump()
+	rec := e.rec(c)
+	in := atomic.AddInt32(&rec.insideFrame, 1)
+	defer atomic.AddInt32(&rec.insideFrame, -1)
+	cls := e.clsOf(rec)
+	e.r.Count("data_frame_callbacks", 1)
+	if atomic.LoadInt64(&rec.openExit) == 0 {
+		t := e.log.Add("dataframe.entry", rec.key, 0, fmt.Sprintf("len=%d fin=%v", len(data), fin))
+		e.violate("c14:"+cls+":data-frame-callback-before-open-callback-returned", fmt.Sprintf("connection %s: a data-frame callback (%d bytes, fin=%v) was entered at t=%d while the open callback (entered t=%d) had not returned\nevents of the connection:\n%s", rec.key, len(data), fin, t, atomic.LoadInt64(&rec.openEntry), e.log.Slice(rec.key, 40)))
+	}
+	if in > 1 {
+		e.violate("c14:"+cls+":data-frame-callbacks-overlap", fmt.Sprintf("%d data-frame callbacks of connection %s run at the same time\nevents of the connection:\n%s", in, rec.key, e.log.Slice(rec.key, 40)))
+	}
+	if ce := atomic.LoadInt64(&rec.closeEntry); ce != 0 && atomic.LoadInt32(&rec.forced) == 0 {
+		e.violate("c14:"+cls+":data-frame-callback-after-close-callback", fmt.Sprintf("connection %s: a data-frame callback was entered after the close callback (t=%d)\nevents of the connection:\n%s", rec.key, ce, e.log.Slice(rec.key, 40)))
+	}
 }
 
 func (e *env) onMessage(c *websocket.Conn, mt websocket.MessageType, data []byte) {
@@ -378,6 +402,9 @@ func (e *env) startServer() (addr string, stop func(), err error) {
 	up.BlockingModAsyncWrite = c.Queued
 	up.OnOpen(e.onOpen)
 	up.OnMessage(e.onMessage)
+	if c.Seed%2 == 0 {
+		up.OnDataFrame(e.onDataFrame)
+	}
 	up.SetPingHandler(e.onPing)
 	up.OnClose(e.onClose)
 	up.CheckOrigin = func(r *http.Request) bool { return true }
